@@ -138,6 +138,7 @@ func DefString(d lazyproto.Def) string {
 
 // Options is one point of the option space.
 type Options struct {
+	PreModes  []bool // WithMode calls given BEFORE the final one (true = fast); the last WithMode wins
 	Fast      bool
 	MaxBuffer int // -1 = option not given
 	Filter    int // 0 none, 1 halve, 2 to zero, 3 negative, 4 identity
@@ -145,7 +146,12 @@ type Options struct {
 
 // GenOptions draws the option tuple.
 func GenOptions(t *rapid.T) Options {
+	var pre []bool
+	for i, n := 0, []int{0, 0, 0, 1, 2}[rapid.IntRange(0, 4).Draw(t, "npremodes")]; i < n; i++ {
+		pre = append(pre, rapid.Bool().Draw(t, "premode"))
+	}
 	return Options{
+		PreModes:  pre,
 		Fast:      rapid.Bool().Draw(t, "fast"),
 		MaxBuffer: []int{-1, 0, 1, 2, 3, 64}[rapid.IntRange(0, 5).Draw(t, "maxbuf")],
 		Filter:    rapid.IntRange(0, 4).Draw(t, "filter"),
@@ -157,6 +163,9 @@ func (o Options) String() string {
 	if o.Fast {
 		m = "fast"
 	}
+	if len(o.PreModes) > 0 {
+		m = fmt.Sprintf("%s(after %v)", m, o.PreModes)
+	}
 	return fmt.Sprintf("mode=%s maxbuf=%d filter=%s", m, o.MaxBuffer, [...]string{"none", "halve", "zero", "negative", "identity"}[o.Filter])
 }
 
@@ -166,8 +175,17 @@ var FilterCalls atomic.Int64
 // Build turns Options into lazyproto options.
 func (o Options) Build() []lazyproto.Option {
 	var opts []lazyproto.Option
+	for _, f := range o.PreModes {
+		if f {
+			opts = append(opts, lazyproto.WithMode(csproto.DecoderModeFast))
+		} else {
+			opts = append(opts, lazyproto.WithMode(csproto.DecoderModeSafe))
+		}
+	}
 	if o.Fast {
 		opts = append(opts, lazyproto.WithMode(csproto.DecoderModeFast))
+	} else if len(o.PreModes) > 0 {
+		opts = append(opts, lazyproto.WithMode(csproto.DecoderModeSafe))
 	}
 	if o.MaxBuffer >= 0 {
 		opts = append(opts, lazyproto.WithMaxBufferSize(o.MaxBuffer))
